@@ -57,6 +57,11 @@ def r1(ctx, F, hub):
             # from outside the serve graph): nothing client-controlled was seen in it, nothing proves it clean either
             ctx.undecided('C11.R1', '%s: a path of unknown provenance reaches %s (labels %s)' % (key, c.split('::')[-1], sorted(labels)))
             continue
+        if TAINT in labels and _behind_confinement_predicate(F, hub, b, bb):
+            # the path did not come out of safe_join, but the call runs only where the predicate safe_join itself is built on
+            # said yes to the request path (`is_confined(path).then(|| Landing::under(root, path))`): the same test, another shape
+            ctx.undecided('C11.R1', '%s: the request path reaches %s without passing safe_join, behind the confinement predicate safe_join is built on: that the predicate was asked about this very path is not decided' % (key, c.split('::')[-1]))
+            continue
         ctx.check(not bad and bool(labels2) and not climbs, 'C11.R1', key, 'path labels %s' % sorted(labels),
                   'fs call %s receives a path that is %s' % (c, 'client-controlled without passing safe_join' if TAINT in labels else
                                                             'built with parent()/with_file_name()/with_extension() from a request path: for a request that names the served '
@@ -102,6 +107,14 @@ def r2(ctx, F):
     # the decision may go through the Option a helper returns (`match refusal(rel) { Some(_) => None, None => Some(join) }`
     # written with is_none / is_some): the refusing arms then build a value instead of returning, and the path rules below do
     # not follow a value through a predicate call - not decided (never a violation)
+    # ... or through a bool predicate of the crate (`is_confined(rel).then_some(root.join(rel))`): the component tests sit in that
+    # predicate, which this rule does not read through - not decided (never a violation)
+    for qb, qt in fl.calls(lambda c: c.split('::')[-1] in ('then_some', 'then') and 'bool' in c):
+        ro = [o for o in fl.origins(qt['args'][0]) if o.kind != 'comb']
+        if ro and all(o.kind == 'call' and F.body(str(o.key)) is not None and F.body(str(o.key)).local_ty(0) == 'bool' for o in ro):
+            ctx.undecided('C11.R2', 'safe_join accepts a path when the crate predicate %s says so (bool::%s): that every dangerous component makes that predicate say no is not decided' % (
+                str(ro[0].key).split('::')[-1], (callee(qt) or '').split('::')[-1]))
+            return
     for qb, qt in fl.calls(lambda c: c.startswith('std::option::Option::<') and c.split('::')[-1] in ('is_none', 'is_some')):
         oc_ = fl.outcomes(qb)
         if any(es and all(cfg.edges_guard(es, sb) for sb in somes) for es in oc_.values()):
@@ -217,6 +230,45 @@ def closure_variant_results(cb, variant):
                             if st2['dst']['l'] == 0 and not st2['dst']['proj'] and st2['rv']['k'] == 'use' and st2['rv']['ops'][0]['k'] == 'const':
                                 out.add(int(bool(st2['rv']['ops'][0].get('v'))))
     return out if found else set()
+
+
+def _behind_confinement_predicate(F, hub, b, bb):
+    """the fs call in (b, bb) runs only behind the true answer of a crate bool predicate that safe_join itself calls: edge-guarded
+    in this body, or inside a closure handed to `bool::then` on that predicate's result"""
+    sj = F.body('serve::safe_join')
+    if sj is None:
+        return False
+    preds = {callee(t_) for _, t_ in flow_of(sj).calls(lambda c: F.body(c) is not None and F.body(c).local_ty(0) == 'bool')}
+    if not preds:
+        return False
+    def guarded_in(body, blk):
+        fl_ = flow_of(body)
+        for pb_, pt_ in fl_.calls(lambda c: c in preds):
+            e_ = fl_.outcomes(pb_).get('true', set())
+            if e_ and fl_.cfg.edges_guard(e_, blk):
+                return True
+        return False
+    if guarded_in(b, bb):
+        return True
+    # the enclosing closure is the argument of bool::then(<predicate result>, closure) in its parent
+    cur, hops = b, 0
+    while cur is not None and cur.parent and hops < 3:
+        pb = F.body(cur.parent)
+        if pb is None:
+            break
+        pfl = flow_of(pb)
+        for tb_, tt_ in pfl.calls(lambda c: c.split('::')[-1] == 'then' and 'bool' in c):
+            recv = [o for o in pfl.origins(tt_['args'][0]) if o.kind != 'comb']
+            clo = [o for o in pfl.origins(tt_['args'][1]) if o.kind == 'agg'] if len(tt_['args']) > 1 else []
+            if recv and all(o.kind == 'call' and o.key in preds for o in recv) and any(str(o.key) == cur.path for o in clo):
+                return True
+        for blk_i, blk in enumerate(pb.blocks):
+            for st in blk['stmts']:
+                rv = st['rv']
+                if rv['k'] == 'agg' and rv.get('ak') in ('closure', 'coroutine') and norm(rv['def']) == cur.path and guarded_in(pb, blk_i):
+                    return True
+        cur, hops = pb, hops + 1
+    return False
 
 
 def refusal_reply_is_bounded(ctx, F, hub):
